@@ -34,7 +34,7 @@ vars == <<l, st, slot, glob, ans, viol, cnt>>
 NoBas == [none |-> TRUE]
 Dead == [live |-> FALSE]
 NewH(lp, sync) == [live |-> TRUE, sync |-> sync, lp |-> lp,
-                   par |-> [ppricing |-> 3, dpricing |-> 7, display |-> 0, maxiter |-> 100000, scaling |-> 1],
+                   par |-> [ppricing |-> 3, dpricing |-> 7, display |-> 0, maxiter |-> 500000, scaling |-> 1],
                    pend |-> {},          \* property tags of calls since the last dump that must not have changed the LP
                    obs |-> [none |-> TRUE],  \* last observation of the stored solution / basis (sol event)
                    taint |-> {},         \* tags of non-mutating calls since that observation
@@ -74,7 +74,8 @@ LPFromDump(ev) ==
 
 DumpOK(ev) == ev.rv_objsense = 0 /\ ev.rv_obj = 0 /\ ev.rv_bounds = 0 /\ ev.rv_rhs = 0 /\ ev.rv_senses = 0
               /\ ev.rv_intflags = 0 /\ ev.rv_rrows = 0 /\ ev.rv_rows = 0 /\ ev.rv_cols = 0
-              /\ ev.rv_rownames = 0 /\ ev.rv_colnames = 0
+              \* named deviation: with no rows (columns) at all the names query may report "no names assigned"
+              /\ (ev.rv_rownames = 0 \/ ev.nrows = 0) /\ (ev.rv_colnames = 0 \/ ev.ncols = 0)
 
 \* differences between a dump and the LP the specification holds (set of strings; {} = equal)
 DumpDiff(L, ev) ==
@@ -92,14 +93,14 @@ DumpDiff(L, ev) ==
     \cup (IF \A i \in 1..L.m : Pairs1(ev.rows2[i]) = RowPairs(L.A[i]) /\ Len(ev.rows2[i]) = Len(L.A[i]) THEN {} ELSE {"rows (get_rows)"})
     \cup (IF \A j \in 1..L.n : Pairs1(ev.cols[j]) = ColPairs(L, j) /\ Len(ev.cols[j]) = Cardinality(ColPairs(L, j)) THEN {} ELSE {"columns (get_columns)"})
     \cup (IF ev.isint = L.isint THEN {} ELSE {"intflags"})
-    \cup (IF /\ (L.m = 0 \/ (Len(ev.rnames) = L.m /\ ev.rnames = ev.rnames2)) /\ Len(ev.rnames2) = L.m
+    \cup (IF /\ (L.m = 0 \/ (Len(ev.rnames) = L.m /\ ev.rnames = ev.rnames2)) /\ (L.m = 0 \/ Len(ev.rnames2) = L.m)
              /\ \A i \in 1..L.m : ev.rnames2[i] # "" /\ (L.rname[i] # UNKNOWN => ev.rnames2[i] = L.rname[i])
              /\ NoDup(ev.rnames2) /\ ev.ridx = [i \in 1..L.m |-> i - 1]
-          THEN {} ELSE {"row names / name->index"})
-    \cup (IF /\ (L.n = 0 \/ (Len(ev.cnames) = L.n /\ ev.cnames = ev.cnames2)) /\ Len(ev.cnames2) = L.n
+          THEN {} ELSE {"row names / name->index: " \o ToString(<<L.rname, ev.rnames, ev.rnames2, ev.ridx>>)})
+    \cup (IF /\ (L.n = 0 \/ (Len(ev.cnames) = L.n /\ ev.cnames = ev.cnames2)) /\ (L.n = 0 \/ Len(ev.cnames2) = L.n)
              /\ \A j \in 1..L.n : ev.cnames2[j] # "" /\ (L.cname[j] # UNKNOWN => ev.cnames2[j] = L.cname[j])
              /\ NoDup(ev.cnames2) /\ ev.cidx = [j \in 1..L.n |-> j - 1]
-          THEN {} ELSE {"column names / name->index"})
+          THEN {} ELSE {"column names / name->index: " \o ToString(<<L.cname, ev.cnames, ev.cnames2, ev.cidx>>)})
 
 ParDiff(par, ev) == IF ev.par.ppricing = par.ppricing /\ ev.par.dpricing = par.dpricing /\ ev.par.display = par.display
                        /\ ev.par.maxiter = par.maxiter /\ ev.par.scaling = par.scaling THEN {} ELSE {"parameters"}
@@ -206,7 +207,7 @@ Step(ev) ==
                IF ~s.sync THEN R([s EXCEPT !.sync = DumpOK(ev), !.lp = IF DumpOK(ev) THEN LPFromDump(ev) ELSE @, !.pend = {}, !.par = ev.par], {})
                ELSE LET d == DumpDiff(L, ev) \cup ParDiff(s.par, ev)
                         tags == IF s.pend = {} THEN {"C06"} ELSE s.pend
-                    IN IF d = {} THEN R([s EXCEPT !.pend = {}, !.lp.rname = ev.rnames2, !.lp.cname = ev.cnames2], {})
+                    IN IF d = {} THEN R([s EXCEPT !.pend = {}, !.lp.rname = IF L.m = 0 THEN <<>> ELSE ev.rnames2, !.lp.cname = IF L.n = 0 THEN <<>> ELSE ev.cnames2], {})
                        ELSE R([s EXCEPT !.pend = {}, !.lp = IF DumpOK(ev) THEN LPFromDump(ev) ELSE @, !.par = ev.par, !.sync = DumpOK(ev), !.truth = [none |-> TRUE]],
                               {V(ev, tags, "query results differ from the reference model: " \o ToString(d))})
           [] c = "new_col" -> Edit(s, ev, AddColValid(L, <<>>, ev.name), FALSE, AddCol(L, <<>>, ev.obj, ev.lo, ev.up, ev.name))
@@ -378,7 +379,7 @@ StepCopy(ev) ==
   ELSE IF ev.ok = 1 THEN [h2 |-> [NewH(src.lp, src.sync) EXCEPT !.par = src.par, !.limits = src.limits], v |-> {}]
   ELSE [h2 |-> Dead, v |-> {V(ev, {"C16"}, "copy failed")}]
 
-Crash(ev) == {V(ev, ev.props, "call did not return: " \o ev.why)}
+Crash(ev) == {V(ev, SetOfSeq(ev.props), "call did not return: " \o ev.why)}
 
 \* C20: with a handler installed no byte may reach fd 1 / fd 2
 Quiet(ev) == IF "hon" \in DOMAIN ev /\ ev.hon = 1 /\ (ev.out # 0 \/ ev.err # 0)
